@@ -43,6 +43,8 @@ const HOT: &[u8] = b"&<>\"'%;#x27amplgtquo \n\t\\/:?=";
 const FRAGS: &[&str] = &[
     "&amp;", "&quot;", "&lt;", "&gt;", "&#x27;", "&#39;", "&apos;", "&", "amp;", "&am", "p;", ";", "#", "#x27;", "x27", "%", "%2",
     "%25", "%41", "%zz", "'", "\"", "<", ">", "a", " ", "\u{e9}", "&&", "&#", "&a", "&amp", "&amp;amp;", "lt;", "gt;", "quot;",
+    // URL-shaped openings (a prefix handled ahead of the per-byte loop shows at a cut inside it)
+    "http://[::1]/x", "https://[2001:db8::1]:8080/a b", "http://[", "://[", "[::1]", "]", "[", "//", "http://a.b/c?d=e&f=g#h", "mailto:a@b.c", "javascript:",
 ];
 
 fn gen_frags(r: &mut Rng, maxn: usize) -> Vec<u8> {
